@@ -73,11 +73,12 @@ def plan(tier, seed):
     n = 250 if tier == "quick" else 3000
     specs_ = [{"n": n, "sub": i} for i in range(16)]
     specs_ += [{"kind": "ix", "n": 40 if tier == "quick" else 400, "sub": 900 + i} for i in range(16)]
+    specs_ += [{"kind": "bigflat", "n": 3 if tier == "quick" else 14, "sub": 1500 + i} for i in range(16)]
     return specs_
 
 
 def floors(tier):
-    return {"cls:feature_interaction_query": 300, "distinct_nontrivial": 400, "cls:sel:elem": 500, "cls:sel:parent_elem": 500, "cls:sel:elem_parent": 300, "cls:sel:parent": 300, "cls:primitive_elements": 300, "cls:parent_is_a_query_reached_only_through_the_attribute": 150, "cls:inner_collection_is_a_symbol_instance": 200,
+    return {"re:cls:scale:hundreds_of_parent_element_rows:.*": 140, "cls:feature_interaction_query": 300, "distinct_nontrivial": 400, "cls:sel:elem": 500, "cls:sel:parent_elem": 500, "cls:sel:elem_parent": 300, "cls:sel:parent": 300, "cls:primitive_elements": 300, "cls:parent_is_a_query_reached_only_through_the_attribute": 150, "cls:inner_collection_is_a_symbol_instance": 200,
             "cls:cond:elem_then_parent_or": 150, "cls:cond:parent_then_pred_pair": 100, "cls:cond:elem_then_parent_notand": 150,
             "cls:cond:none": 200, "cls:cond:elem": 200, "cls:cond:parent": 200, "cls:cond:both": 200, "cls:cond:join": 200, "cls:cond:join3": 200, "cls:cond:elem_or": 200, "cls:cond:elem_stacked": 200, "cls:cond:elem_and": 200, "cls:cond:elem_not": 200,
             "cls:scalar": 200, "cls:plain_scalar_value": 60, "cls:reevaluated_after_inner_lists_changed": 150, "cls:has_empty_list": 500, "cls:has_repeated_element": 500, "re:Flatten(@.*)?\\.enter": 2000}
@@ -122,7 +123,59 @@ def gen_case(rng):
             "scalar": rng.random() < 0.15, "caching": rng.random() < 0.7}
 
 
+def check_bigflat_case(case, ctx):
+    """SIZE: 25-50 parents with inner collections of 8-24 plain numbers (hundreds of (parent, element) rows), two or three
+    conditions on the element, optionally a further variable enumerated OUTSIDE the flatten (three tiers); evaluated twice"""
+    from entity_query_language import symbolic_mode, an, set_of, let, and_, or_
+    from entity_query_language.entity import flatten
+    from entity_query_language.cache_data import enable_caching, disable_caching
+    ctx.cls("cls:scale:hundreds_of_parent_element_rows:" + case["shape"])
+    ps = [Par(k, list(items)) for k, items in case["parents"]]
+    ts = [E(n) for n in case["tiers"]]
+    lo, hi = case["lo"], case["hi"]
+    pidx = {id(p): i for i, p in enumerate(ps)}
+    tidx = {id(t): i for i, t in enumerate(ts)}
+    if case["shape"] == "plain":
+        exp = sorted((pi, v) for pi, p in enumerate(ps) for v in p.items if p.k >= 1 and lo <= v < hi)
+    else:
+        exp = sorted((ti, pi, v) for ti, t in enumerate(ts) for pi, p in enumerate(ps) for v in p.items if t.n >= 0 and lo <= v < hi)
+    if exp:
+        ctx.nontrivial()
+    (enable_caching if case["caching"] else disable_caching)()
+    try:
+        with symbolic_mode():
+            p = let(Par, ps)
+            e = flatten(p.items)
+            if case["shape"] == "plain":
+                q = an(set_of([p, e], p.k >= 1, e >= lo, e < hi))
+                dec = lambda r: (pidx[id(r[p])], r[e])
+            else:
+                t = let(E, ts)
+                q = an(set_of([t, p, e], and_(t.n >= 0, e >= lo, e < hi)))
+                dec = lambda r: (tidx[id(r[t])], pidx[id(r[p])], r[e])
+        for rnd in range(2):
+            got = sorted(dec(r) for r in q.evaluate())
+            if got != exp:
+                ctx.fail("BIGFLAT:" + ("missing" if set(exp) - set(got) else "") + ("+extra" if set(got) - set(exp) else ""),
+                         {"shape": case["shape"], "evaluation": rnd + 1, "n_expected": len(exp), "n_observed": len(got)})
+                return
+    except Exception as ex:
+        import traceback
+        ctx.fail("EXC", f"bigflat: {type(ex).__name__}: {ex}\n{traceback.format_exc()[-500:]}")
+    finally:
+        enable_caching()
+    ctx.sample({"bigflat": case["shape"], "rows": len(exp)})
+
+
 def cases(spec, ctx):
+    if spec.get("kind") == "bigflat":
+        for i in range(spec["n"]):
+            rng = ctx.rng(spec["sub"], i)
+            lo = rng.randint(2, 8)
+            yield {"bigflat": True, "shape": ["plain", "tiers_outside", "tiers_outside"][(i + spec["sub"]) % 3],
+                   "parents": [[rng.randint(0, 3), rng.sample(range(40), rng.randint(8, 24))] for _ in range(rng.randint(25, 50))],
+                   "tiers": rng.sample(range(0, 6), 3), "lo": lo, "hi": lo + rng.randint(6, 25), "caching": rng.random() < 0.85}
+        return
     if spec.get("kind") == "ix":
         from .. import ix
         for i in range(spec["n"]):
@@ -332,6 +385,8 @@ def run_for_c05(case, caching, times):
 
 
 def check_case(case, ctx):
+    if "bigflat" in case:
+        return check_bigflat_case(case, ctx)
     if "ix" in case:
         from .. import ix
         return ix.check(case["ix"], ctx)
